@@ -10,6 +10,8 @@
 //	        Read results, Content-Length, Docker-Content-Digest, Content-Range, status);
 //	CBig    a content of 64 KiB .. tens of MiB pushed through one path on one stack and read back
 //	        (identified by length and SHA-256; see big.go);
+//	CFault  one read of a content the real registry holds, through one or two client hops, with a
+//	        fault injected into the response body on the innermost hop (fault.go);
 //	CRange  one ranged blob GET on the wire: the Range header the client sent for (o0, o1),
 //	        or a hand-written one, and the status / Content-Range / Content-Length / body the
 //	        server answered.
@@ -28,11 +30,12 @@ import (
 )
 
 type caseInput struct {
-	Kind  string     `json:"kind"` // hist | read | range | big
+	Kind  string     `json:"kind"` // hist | read | range | big | fault
 	Hist  *history   `json:"hist,omitempty"`
 	Read  *readCase  `json:"read,omitempty"`
 	Range *rangeCase `json:"range,omitempty"`
 	Big   *bigCase   `json:"big,omitempty"`
+	Fault *faultCase `json:"fault,omitempty"`
 }
 
 func runInput(out *hx.Out, in caseInput, origin string) {
@@ -52,6 +55,10 @@ func runInput(out *hx.Out, in caseInput, origin string) {
 	case "big":
 		if in.Big != nil {
 			runBig(out, *in.Big, origin)
+		}
+	case "fault":
+		if in.Fault != nil {
+			runFault(out, *in.Fault, origin)
 		}
 	}
 }
@@ -95,6 +102,7 @@ func main() {
 	genDisagree(out, rnd, scale)
 	genDrains(out, rnd, scale)
 	genReads(out, rnd, scale)
+	genFaults(out, rnd, scale)
 	genRanges(out, rnd, scale)
 	genBig(out, rnd, scale)
 	out.Extra["note"] = fmt.Sprintf("tier=%s seed=%d", cfg.Tier, cfg.Seed)
